@@ -26,6 +26,3 @@ Definition pinned_decls_mstr : list string :=
 
 Definition ok_mstr : Prop :=
   of_file fst "mstr.go" InvMstr.inventory = pinned_mstr /\ of_file (fun s => s) "mstr.go" InvMstr.decls = pinned_decls_mstr.
-
-Lemma C20_inventory_mstr : InvMstr.files = pinned_files /\ ok_mstr.
-Proof. unfold ok_mstr; repeat split; vm_compute; reflexivity. Qed.
